@@ -3,6 +3,7 @@ package main
 import (
 	. "verifharness/internal/core"
 
+	"bytes"
 	"crypto/rsa"
 	"crypto/x509"
 	"encoding/base64"
@@ -178,7 +179,12 @@ func genAttrSvcs(r *rand.Rand) []mAttrSvc {
 			s.Default = bptr(false)
 		}
 		for j, m := 0, r.Intn(5); j < m; j++ {
-			s.Requested = append(s.Requested, mReqAttr{Friendly: maybe(r, 2, func() string { return word(r) }), Name: pick(r, reqAttrNames), Format: pick(r, reqAttrFormats)})
+			ra := mReqAttr{Friendly: maybe(r, 2, func() string { return word(r) }), Name: pick(r, reqAttrNames), Format: pick(r, reqAttrFormats)}
+			// "the values requested": AttributeValue children in the SP's metadata, which the IdP must not echo
+			for k, nv := 0, pick(r, []int{0, 0, 1, 2}); k < nv; k++ {
+				ra.Values = append(ra.Values, fmt.Sprintf("META-ONLY-value-%s-%d", pick(r, []string{"admin", "root", "ceo@sp.example.com"}), k))
+			}
+			s.Requested = append(s.Requested, ra)
 		}
 		out = append(out, s)
 	}
@@ -429,6 +435,9 @@ func extraChecks(in c06Input, res c06Result) []string {
 	r := res.form.Resp
 	var out []string
 	out = append(out, res.optionProblems...)
+	if bytes.Contains(res.form.XML, []byte("META-ONLY")) || (r.Enc != nil && bytes.Contains(r.Enc.PlainXML, []byte("META-ONLY"))) {
+		out = append(out, "data that exists only in the SP's metadata (RequestedAttribute values, service names) is echoed in the response")
+	}
 	out = append(out, r.Problems...)
 	out = append(out, r.Sig.Problems...)
 	signerID := in.cfg.Key
